@@ -236,6 +236,31 @@ def parse_regex_shape(pattern: str, flags=0):
     # single class  (re.search)
     if len(tree) == 1 and cls_of(tree[0]):
         return ("has", cls_of(tree[0]))
+    # ^ C{k} C?{m} lit   (re.match): between k and k+m class characters, then a literal outside the class
+    if len(tree) >= 3 and tree[0] == (C.AT, C.AT_BEGINNING) and tree[-1][0] == C.LITERAL:
+        body = tree[1:-1]
+        k = m = 0
+        cls = None
+        okk = True
+        for node in body:
+            c1 = cls_of(node)
+            if c1 is not None and m == 0:
+                k += 1
+            elif node[0] == C.MAX_REPEAT and node[1][0] == 0 and node[1][1] == 1 and len(node[1][2]) == 1 \
+                    and cls_of(node[1][2][0]) is not None:
+                c1 = cls_of(node[1][2][0])
+                m += 1
+            else:
+                okk = False
+                break
+            if cls is None:
+                cls = c1
+            elif cls != c1:
+                okk = False
+                break
+        lit = tree[-1][1]
+        if okk and cls in ("WS", "BLANK") and k + m > 0 and not chr(lit).isspace():
+            return ("lead_range", cls, k, k + m, lit)
     # two consecutive classes (re.split(r"\s#"))
     if len(tree) == 2 and cls_of(tree[0]) and cls_of(tree[1]):
         return ("pair", cls_of(tree[0]), cls_of(tree[1]))
@@ -428,6 +453,19 @@ def call_builtin(ex, reg, st, f: VBuiltin, args, kwargs, node):
             head = z3.If(P >= 0, z3.SubSeq(s.t, ival(0), P), s.t)
             rest = fresh(z3.SeqSort(STR), "resplit_rest")
             return [(st, VSeq(T_STR, z3.Concat(z3.Unit(head), rest)))]
+        if name == "re.match":
+            pat = _const_pattern(args[0])
+            shape = parse_regex_shape(pat)
+            s = args[1]
+            if shape is None or shape[0] != "lead_range" or not isinstance(s, VStr) or len(args) != 2:
+                raise EngineUnsupported(f"re.match pattern {pat!r}")
+            _, cls, lo, hi, lit = shape
+            L = lead(reg, st, s.t, cls)
+            cond = z3.And(L >= lo, L <= hi, L < z3.Length(s.t), s.t[L] == lit)
+            out = []
+            for s2, b in ex.branch(st, cond):
+                out.append((s2, VPy("match") if b else VNone))
+            return out
         if name == "re.search":
             pat = _const_pattern(args[0])
             shape = parse_regex_shape(pat)
